@@ -34,6 +34,22 @@ I_SMALL = [("num", 2), ("num", -1), V("a"), V("b"), V("e"), V("u"), ("idx", "s",
 B_ATOMS = [("bool", 1), ("bool", 0), V("f"), V("g")]
 
 
+def const_value(e):
+    """value of a variable-free expression (python integers, as the compiler folds it), else None"""
+    t = e[0]
+    if t in ("num", "char", "bool"):
+        return e[1]
+    if t == "neg":
+        v = const_value(e[1])
+        return None if v is None else -v
+    if t == "bin" and e[1] in ("+", "-", "*"):
+        a, b = const_value(e[2]), const_value(e[3])
+        if a is None or b is None:
+            return None
+        return {"+": a + b, "-": a - b, "*": a * b}[e[1]]
+    return None
+
+
 def typed_trees(tier, seed):
     """-> list of (type 'I'|'B', expr)"""
     out = []
@@ -106,8 +122,10 @@ def typed_trees(tier, seed):
         if e[0] == "bin":
             if e[1] in ("/", "%") and e[3][0] == "num" and e[3][1] == 0:
                 return True
-            if e[1] in ("<<", ">>") and e[3][0] in ("num", "char") and not 0 <= e[3][1] < 64:
-                return True      # constant shift counts outside 0..63 are (rightly) compile-time errors
+            if e[1] in ("<<", ">>") or e[1] in ("/", "%"):
+                cv = const_value(e[3])
+                if cv is not None and ((e[1] in ("<<", ">>") and not 0 <= cv < 64) or (e[1] in ("/", "%") and cv == 0)):
+                    return True      # constant shift counts outside 0..63 / constant zero divisors are (rightly) compile-time errors
             return zero_div(e[2]) or zero_div(e[3])
         if e[0] in ("not", "neg"):
             return zero_div(e[1])
